@@ -4,3 +4,4 @@ import Liftbridge.Model.Envelope
 import Liftbridge.Model.Log
 import Liftbridge.Model.Retention
 import Liftbridge.Model.Compact
+import Liftbridge.Model.Subscribe
